@@ -49,9 +49,20 @@ type svcState struct {
 }
 
 type e2eWorld struct {
-	s   *xdsfake.FakeDiscoveryServer
+	s   *xdsfake.FakeDiscoveryServer   // the instance the proxy is connected to first
+	s2  *xdsfake.FakeDiscoveryServer   // a second instance with the same registry content
 	t   *testing.T
 	svc [nHosts]svcState
+}
+
+func (w *e2eWorld) servers() []*xdsfake.FakeDiscoveryServer {
+	return []*xdsfake.FakeDiscoveryServer{w.s, w.s2}
+}
+
+func (w *e2eWorld) synced() {
+	for _, s := range w.servers() {
+		s.EnsureSynced(w.t)
+	}
 }
 
 func (w *e2eWorld) setEndpoints(i int, eps []int) {
@@ -59,18 +70,24 @@ func (w *e2eWorld) setEndpoints(i int, eps []int) {
 	for _, e := range eps {
 		l = append(l, &model.IstioEndpoint{Addresses: []string{fmt.Sprintf("10.9.%d.%d", i, e+1)}, ServicePortName: "http-main", EndpointPort: 80})
 	}
-	w.s.MemRegistry.SetEndpoints(hostName(i), "", l)
+	for _, s := range w.servers() {
+		s.MemRegistry.SetEndpoints(hostName(i), "", l)
+	}
 	w.svc[i].eps = eps
 }
 
 func (w *e2eWorld) set(i int, present bool, eps []int) {
 	if present && !w.svc[i].present {
-		w.s.MemRegistry.AddHTTPService(hostName(i), fmt.Sprintf("10.5.0.%d", i+1), 80)
+		for _, s := range w.servers() {
+			s.MemRegistry.AddHTTPService(hostName(i), fmt.Sprintf("10.5.0.%d", i+1), 80)
+		}
 		w.svc[i].present = true
 		w.svc[i].eps = nil
 	}
 	if !present && w.svc[i].present {
-		w.s.MemRegistry.RemoveService(host.Name(hostName(i)))
+		for _, s := range w.servers() {
+			s.MemRegistry.RemoveService(host.Name(hostName(i)))
+		}
 		w.svc[i].present = false
 		w.svc[i].eps = nil
 	}
@@ -504,7 +521,7 @@ func (g *gen) cut(t *testing.T, w *e2eWorld, rnd *vlib.Rand, id int, delta bool)
 	for i := 0; i < nHosts; i++ {
 		w.set(i, rnd.Chance(55), randEps(rnd))
 	}
-	s.EnsureSynced(t)
+	w.synced()
 
 	// 2. the first life of the proxy, cut after k responses
 	k := rnd.Intn(4)
@@ -550,9 +567,15 @@ func (g *gen) cut(t *testing.T, w *e2eWorld, rnd *vlib.Rand, id int, delta bool)
 	for n := rnd.Intn(4); n > 0; n-- {
 		log = append(log, w.change(rnd))
 	}
-	s.EnsureSynced(t)
+	w.synced()
 
-	// 4. reconnect with the retained state
+	// 4. reconnect with the retained state, to the same instance or to the other one (which has never
+	// seen this proxy nor issued any of its nonces)
+	other := rnd.Chance(35)
+	if other {
+		s = w.s2
+		log = append(log, "reconnect to the second instance")
+	}
 	b := connect(t, s, delta)
 	b.cds, b.eds, b.isEDS = copyI(ret.cds), copyI(ret.eds), ret.isEDS
 	for u, n := range ret.nonce {
@@ -633,6 +656,9 @@ func (g *gen) cut(t *testing.T, w *e2eWorld, rnd *vlib.Rand, id int, delta bool)
 	if edsFirst {
 		tags = append(tags, "e2e-eds-first")
 	}
+	if other {
+		tags = append(tags, "e2e-other-instance")
+	}
 	if !settled {
 		g.c.Violate(vlib.Violation{ID: id, Kind: "no-quiescence", Detail: "the reconnect exchange does not settle", Case: map[string]any{"trace": b.trace, "log": log}})
 	}
@@ -678,7 +704,7 @@ func runE2E(t *testing.T, g *gen, rnd *vlib.Rand) {
 			continue
 		}
 		if w == nil || i%12 == 0 {
-			w = &e2eWorld{s: xdsfake.NewFakeDiscoveryServer(t, xdsfake.FakeOptions{}), t: t}
+			w = &e2eWorld{s: xdsfake.NewFakeDiscoveryServer(t, xdsfake.FakeOptions{}), s2: xdsfake.NewFakeDiscoveryServer(t, xdsfake.FakeOptions{}), t: t}
 		}
 		g.cut(t, w, r, id, i%2 == 0)
 	}
